@@ -42,7 +42,7 @@ B0one == One(LeafB)
 FamFlat == {Plain("flat", s) : s \in SeqsUpTo(LeafQ, 3)}
 
 \* ---- one level of nesting: object, null object, list with a null member --
-TopA == {"a", "nul", "items"}
+TopA == {"a", "nul", "items", "matrix"}
 FamNest1 ==
   {Plain("nest1", <<FS(al, top, sub)>>) : al \in {"", "z"}, top \in TopA, sub \in A0}
     \cup {Plain("nest1", <<FS("", top, sub), l>>) : top \in TopA, sub \in A0one, l \in LeafQ}
@@ -82,7 +82,9 @@ FamSpread ==
 
 \* ---- equal response keys must merge their sub-selections ----------------
 FamDups ==
-  {Plain("dups", <<FS(al, top, s1), FS(al, top, s2)>>) : al \in {"", "z"}, top \in {"a", "items"}, s1 \in A0one, s2 \in A0one}
+  {Plain("dups", <<FS(al, top, s1), FS(al, top, s2)>>) : al \in {"", "z"}, top \in {"a", "items", "matrix"}, s1 \in A0one, s2 \in A0one}
+  \cup {Plain("dups", <<FS("", top, s1), Inl(c, <<FS("", top, s2)>>)>>) : c \in {"", "Query"}, top \in {"items", "matrix"}, s1 \in A0one, s2 \in A0one}
+  \cup {Plain("dups", <<FS("", "matrix", <<FS("", "kids", s1)>>), FS("", "matrix", <<FS("", "kids", s2), F("", "n")>>)>>) : s1 \in A0one, s2 \in A0one}
   \cup {Plain("dups", <<FS("", "a", <<FS("", "self", s1)>>), FS("", "a", <<FS("", "self", s2)>>)>>) : s1 \in A0one, s2 \in A0one}
   \cup {Plain("dups", <<l, l>>) : l \in LeafQ}
   \cup {Plain("dups", <<FS("", "a", <<l, l, F("", "n")>>)>>) : l \in LeafA}
@@ -136,9 +138,16 @@ DirTargets(ds) ==
     <<FS("", "a", <<WithDirs(Inl("A", <<F("", "n")>>), ds), F("", "name")>>)>>,
     <<FS("", "a", <<WithDirs(Spr("G"), ds), F("", "name")>>)>> }
 DirFrags == <<Frg("Q", "Query", <<F("", "title"), FS("", "a", <<F("", "name")>>)>>), Frg("G", "A", <<F("", "n"), FS("", "self", <<F("x", "name")>>)>>)>>
+\* the same named fragment spread twice with independent directives (a decision must not be shared)
+DirSmall == { <<>>, <<Dir("skip", BoolV(TRUE))>>, <<Dir("skip", BoolV(FALSE))>>, <<Dir("include", BoolV(TRUE))>>,
+              <<Dir("include", BoolV(FALSE))>>, <<Dir("skip", Var("sT"))>>, <<Dir("include", Var("iF"))>>, <<Dir("include", Var("iDT"))>> }
+DirTwice(d1, d2) ==
+  { <<WithDirs(Spr("Q"), d1), WithDirs(Spr("Q"), d2)>>,
+    <<FS("", "a", <<WithDirs(Spr("G"), d1), F("", "name"), WithDirs(Spr("G"), d2)>>)>>,
+    <<FS("", "items", <<WithDirs(Inl("A", <<Spr("G")>>), d1), WithDirs(Spr("G"), d2)>>)>> }
 FamDirs ==
   { Case("dirs", [ops |-> <<Op("D", "query", DirVarDefs, t)>>, frags |-> DirFrags], "D", DirGiven, {}) :
-       t \in UNION { DirTargets(ds) : ds \in DirCombos } }
+       t \in UNION { DirTargets(ds) : ds \in DirCombos } \cup UNION { DirTwice(d1, d2) : d1 \in DirSmall, d2 \in DirSmall } }
 
 \* ---- one defect injected into a valid request (C10) ---------------------------------------
 BogusArg == Arg("bogus", IntV(1))
@@ -167,6 +176,8 @@ FamDefects ==
   \cup { Plain("defect", s) : s \in {
       <<F("", "need"), F("", "title")>>,
       <<FA("", "need", <<Arg("x", NullV)>>), F("", "title")>>,
+      <<FA("", "need2", <<Arg("o", StrV("v"))>>), F("", "title")>>,
+      <<FA("", "need2", <<Arg("o", StrV("v")), Arg("x", StrV("w"))>>), FA("z", "need2", <<Arg("x", NullV), Arg("o", StrV("v"))>>)>>,
       <<F("", "title"), FA("k", "need", <<Arg("x", StrV("ok"))>>), F("", "need")>> } }
   \* unknown / misplaced directive, directive with unknown or ill-typed argument: the document is refused
   \cup { Plain("defect", <<Bad(F("", "title"), b), FS("", "a", <<F("", "name")>>)>>) : b \in {"unknown_dir", "misplaced_dir", "dir_unknown_arg", "dir_bad_arg"} }
@@ -180,6 +191,7 @@ FamDefects ==
 
 \* ---- every single resolver call of a request made to fail in turn (C06) ------------------
 FaultDocs ==
+  { Doc1(<<FS("", "matrix", <<F("", "name"), FS("", "kids", <<F("x", "n")>>)>>), F("", "title")>>) } \cup
   { Doc1(<<FS(al, top, sub), F("", "title")>>) : al \in {"", "z"}, top \in {"a", "items"}, sub \in {<<F("", "name"), F("x", "n")>>, <<F("", "many")>>} }
   \cup { Doc1(<<FS("", top, sub)>>) : top \in {"a", "items"}, sub \in One(A1) \cup {<<FS("", "kids", <<F("", "name"), FS("", "self", <<F("", "n")>>)>>), F("", "name")>>} }
   \cup { Doc1(<<FS("", "a", <<Inl(c, <<F("", "name"), FS("", "self", <<F("", "n")>>)>>), F("", "n")>>)>>) : c \in {"", "A"} }
@@ -188,13 +200,54 @@ FaultDocs ==
   \cup { Doc1(<<FS("", "a", <<FS("", "peer", <<FS("", "peer", <<F("", "boom"), FS("s", "self", <<F("", "name")>>)>>)>>)>>)>>) }
 CallSites(doc) == LET r == Response(UExec, doc, "", NoVars, {}) IN { <<r.calls[i].node, r.calls[i].field>> : i \in DOMAIN r.calls }
 FamFaults1 == { Case("fault1", d, "", NoVars, {site}) : <<d, site>> \in UNION { {d} \X CallSites(d) : d \in FaultDocs } }
+\* list accessor failures: every index of every list a request walks, alone and together with each resolver failure
+NthDocs == { Doc1(<<FS("", top, <<F("", "name"), FS("k", "kids", <<F("", "n")>>)>>), F("", "title")>>) : top \in {"items", "matrix"} }
+NthSites == { <<"q", "items", "0">>, <<"q", "items", "1">>, <<"q", "items", "2">>, <<"q", "matrix", "0">>, <<"q", "matrix", "2">>, <<"q", "matrix", "3">>,
+              <<"a1", "kids", "0">> }
+FamFaultsNth == { Case("faultnth", d, "", NoVars, {s}) : d \in NthDocs, s \in NthSites }
+                   \cup { Case("faultnth", ds[1], "", NoVars, {ds[2], ds[3]}) : ds \in UNION { {d} \X NthSites \X CallSites(d) : d \in NthDocs } }
 FamFaults0 == { Case("fault0", d, "", NoVars, {}) : d \in FaultDocs }
 FamFaults2 == { Case("fault2", ds[1], "", NoVars, {ds[2], ds[3]}) :
                   ds \in UNION { {d} \X CallSites(d) \X CallSites(d) : d \in FaultDocs } }
+
+\* ---- literal containers holding variables (input objects, lists) -------------------------
+ObjV(f) == V("obj", f)
+ObjArgSeqs ==
+  { <<Arg("in", ObjV([a |-> StrV("lit"), n |-> IntV(2)]))>>,
+    <<Arg("in", ObjV([a |-> Var("sv")]))>>,
+    <<Arg("in", ObjV([a |-> Var("sv"), l |-> ListV(<<Var("sv"), StrV("k")>>)])), Arg("l", ListV(<<Var("sv")>>))>>,
+    <<Arg("l", ListV(<<StrV("x"), Var("sv")>>))>>,
+    <<Arg("l", ListV(<<>>)), Arg("in", ObjV([n |-> IntV(7)]))>> }
+SvDefs == { <<VarDef("sv", S)>>, <<VarDefD("sv", S, StrV("dflt"))>> }
+SvGiven == { NoVars, [sv |-> StrV("one")], [sv |-> StrV("two")] }
+FamInputs ==
+  { Case("inputs", DocV(vds, <<FA(al, "obj", as), F("", "title")>>), "", g, {}) :
+       al \in {"", "o"}, as \in ObjArgSeqs, vds \in SvDefs, g \in SvGiven }
+
+\* ---- sessions: one parsed document resolved several times (C11) ------------------------------
+ReuseDocs ==
+  { [ops |-> <<Op("Q", "query", vds, <<FA("", "obj", as), FS("", "a", <<FA("", "tag", <<Arg("s", Var("sv"))>>)>>)>>)>>, frags |-> <<>>] :
+       vds \in SvDefs, as \in ObjArgSeqs }
+  \cup { [ops |-> <<Op("Q", "query", <<VarDef("sv", S), VarDefD("bv", B, BoolV(FALSE))>>,
+                       <<FA("", "echo", <<Arg("i", IntV(3)), Arg("b", Var("bv")), Arg("s", Var("sv"))>>),
+                         WithDirs(F("", "title"), <<Dir("skip", Var("bv"))>>),
+                         WithDirs(FS("", "a", <<F("", "name")>>), <<Dir("include", Var("bv"))>>), Spr("F")>>)>>,
+         frags |-> <<Frg("F", "Query", <<FA("e2", "echo", <<Arg("s", Var("sv"))>>)>>)>>] }
+  \cup { [ops |-> <<Op("A", "query", <<>>, <<FA("", "echo", <<Arg("b", BoolV(TRUE)), Arg("s", StrV("x"))>>)>>),
+                    Op("B", "query", <<VarDef("sv", S)>>, <<FS("", "a", <<FA("", "tag", <<Arg("s", Var("sv"))>>)>>),
+                                                             FS("", "items", <<FA("", "tag", <<Arg("s", Var("sv"))>>), F("", "n")>>)>>)>>,
+         frags |-> <<>>] }
+  \cup { Doc1(<<FS("", "a", <<FA("", "tag", <<BogusArg>>), F("", "n")>>)>>),
+         Doc1(<<FS("", "items", <<FA("", "tag", <<Arg("s", StrV("v")), BogusArg>>)>>)>>),
+         Doc1(<<FS("", "a", <<F("", "nope"), F("", "name")>>), F("", "need")>>) }
+ReuseCalls(doc) ==
+  { [op |-> o, vars |-> g] :
+      o \in {doc.ops[i].name : i \in DOMAIN doc.ops} \cup (IF Len(doc.ops) = 1 THEN {""} ELSE {}),
+      g \in { NoVars, [sv |-> StrV("one")], [sv |-> StrV("two"), bv |-> BoolV(TRUE)] } }
 
 Families ==
   [ flat |-> FamFlat, nest1 |-> FamNest1, nest2 |-> FamNest2, nest3 |-> FamNest3,
     inline1 |-> FamInline1, inline2 |-> FamInline2, spread |-> FamSpread, dups |-> FamDups,
     args |-> FamArgs, ops |-> FamOps, dirs |-> FamDirs, defect |-> FamDefects,
-    fault0 |-> FamFaults0, fault1 |-> FamFaults1, fault2 |-> FamFaults2 ]
+    inputs |-> FamInputs, faultnth |-> FamFaultsNth, fault0 |-> FamFaults0, fault1 |-> FamFaults1, fault2 |-> FamFaults2 ]
 =============================================================================
